@@ -87,14 +87,24 @@ def childVal : Option Options → PyVal
 def hashVal (a : FeatureId) : PyVal :=
   .tuple [.str a.name, a.options.hashVal, optStrVal a.domain, cfwVal a.cfw, optObjVal a.dtype, childVal a.child]
 
-/-- `(self.options, compute_frameworks_hashable)` — `base_similarity_properties` -/
+/-- the value whose hash is `base_similarity_properties()` = `hash(base_similarity_key())` -/
 def baseVal (a : FeatureId) : PyVal := .tuple [a.options.hashVal, cfwVal a.cfw]
 
-/-- `has_similarity_properties`: with a declared type the type joins the tuple -/
+/-- the value whose hash is `has_similarity_properties()` = `hash(similarity_key())` -/
 def simVal (a : FeatureId) : PyVal :=
   match a.dtype with
   | some t => .tuple [a.options.hashVal, cfwVal a.cfw, .obj t]
   | none => baseVal a
+
+/-- `base_similarity_key()` = `(self.options, compute_frameworks_hashable)` as a value under `==`: tuple equality is
+element-wise, `Options.__eq__` compares the group dictionaries -/
+def baseKey (a : FeatureId) : PyVal := .tuple [.dict a.options.group, cfwVal a.cfw]
+
+/-- `similarity_key()`: with a declared type the type joins the tuple -/
+def simKey (a : FeatureId) : PyVal :=
+  match a.dtype with
+  | some t => .tuple [.dict a.options.group, cfwVal a.cfw, .obj t]
+  | none => baseKey a
 
 /-- the `Feature.__hash__` rewrite leaves these child options alone: `get(in_features)` is falsy, or neither a
 `Feature` nor a frozenset holding one -/
